@@ -55,6 +55,23 @@ pub fn ds(h: &str) -> Option<String> {
     String::from_utf8(out).ok()
 }
 
+/// `x<hex>` -> raw bytes (not required to be UTF-8)
+pub fn dbytes(h: &str) -> Option<Vec<u8>> {
+    let h = h.strip_prefix('x')?;
+    if h.len() % 2 != 0 {
+        return None;
+    }
+    let v = |c: u8| -> Option<u8> {
+        match c {
+            b'0'..=b'9' => Some(c - b'0'),
+            b'a'..=b'f' => Some(c - b'a' + 10),
+            _ => None,
+        }
+    };
+    let b = h.as_bytes();
+    (0..b.len()).step_by(2).map(|i| Some(v(b[i])? * 16 + v(b[i + 1])?)).collect()
+}
+
 pub fn dlist(f: &str) -> Option<Vec<String>> {
     if f.is_empty() {
         return Some(vec![]);
